@@ -683,7 +683,10 @@ GIName.  It's possible for nodes to contain or point to other nodes."""
             return None
 
         res = None
-        for position in self.file_positions:
+        # file_positions is a set: iterate in a fixed order so that the
+        # position chosen does not depend on the hash seed
+        for position in sorted(self.file_positions,
+                               key=lambda p: (p.filename or '', p.line or 0, p.column or 0)):
             if position.is_typedef:
                 res = position
             else:
